@@ -478,7 +478,7 @@ func runC14(c *Ctx) {
 			c.unresolved("C14-R2", "preflight field sets", "declaration not found")
 		} else {
 			libFields := c14FieldsReadAST(c14GuardConds(lfd, lpk.TypesInfo, map[string]bool{"ErrKey": true, "ErrRRset": true}), lpk.TypesInfo)
-			ourFields := c14FieldsReadAST([]ast.Node{ofd.Body}, opk.TypesInfo)
+			ourFields := c14FieldsReadAST(c14BodiesWithHelpers(c.P, ofd, opk), opk.TypesInfo)
 			var missing, all []string
 			for v := range libFields {
 				all = append(all, v.Name())
